@@ -9,8 +9,8 @@
        a/b with b*p - a*q = 1 and L - q < b <= L (b is p^-1 mod q lifted to that window);
      * no fraction with denominator <= L lies strictly between x and r (x < r, r in F_L)
        iff pred_L(r) <= x;
-     * p/q in an interval I (not containing 0) is the simplest fraction of I iff neither neighbour of
-       p/q in F_(q-1) lies in I (then every fraction of I has denominator >= q, and the ones with
+     * p/q in an interval J (not containing 0) is the simplest fraction of J iff neither neighbour of
+       p/q in F_(q-1) lies in J (then every fraction of J has denominator >= q, and the ones with
        denominator q and a smaller numerator are <= the lower neighbour).
 
    The modular inverse is computed here by Euclid on BigNat (an Assert guards b*p - a*q = 1, so a
@@ -61,21 +61,21 @@ NearestOK(x, L, r, flag) ==
 
 \* ---------------------------------------------------------------- simplest fraction of an interval
 QIval(lo, hi, il, ih) == [lo |-> lo, hi |-> hi, il |-> il, ih |-> ih]
-InQIval(f, I) == /\ (IF I.il THEN QLe(I.lo, f) ELSE QLt(I.lo, f))
-                 /\ (IF I.ih THEN QLe(f, I.hi) ELSE QLt(f, I.hi))
-NegIval(I) == QIval(QNeg(I.hi), QNeg(I.lo), I.ih, I.il)
+InQIval(f, J) == /\ (IF J.il THEN QLe(J.lo, f) ELSE QLt(J.lo, f))
+                 /\ (IF J.ih THEN QLe(f, J.hi) ELSE QLt(f, J.hi))
+NegIval(J) == QIval(QNeg(J.hi), QNeg(J.lo), J.ih, J.il)
 QPred1(r) == Q(ISub(r.n, IOne), r.d)
-\* I: an interval of non-negative numbers, r > 0 in lowest terms
-PosSimplestOK(r, I) ==
-  /\ InQIval(r, I)
-  /\ ~InQIval(QZero, I)
-  /\ IF r.d = One THEN ~InQIval(QPred1(r), I)
-     ELSE LET qm1 == Sub(r.d, One) IN ~InQIval(PredIn(r, qm1), I) /\ ~InQIval(SuccIn(r, qm1), I)
-SimplestInIvalOK(r, I) ==
+\* J: an interval of non-negative numbers, r > 0 in lowest terms
+PosSimplestOK(r, J) ==
+  /\ InQIval(r, J)
+  /\ ~InQIval(QZero, J)
+  /\ IF r.d = One THEN ~InQIval(QPred1(r), J)
+     ELSE LET qm1 == Sub(r.d, One) IN ~InQIval(PredIn(r, qm1), J) /\ ~InQIval(SuccIn(r, qm1), J)
+SimplestInIvalOK(r, J) ==
   /\ Canon(r)
-  /\ IF InQIval(QZero, I) THEN QIsZero(r)
-     ELSE IF QSign(r) > 0 THEN QSign(I.hi) > 0 /\ PosSimplestOK(r, I)
-     ELSE IF QSign(r) < 0 THEN QSign(I.lo) < 0 /\ PosSimplestOK(QNeg(r), NegIval(I))
+  /\ IF InQIval(QZero, J) THEN QIsZero(r)
+     ELSE IF QSign(r) > 0 THEN QSign(J.hi) > 0 /\ PosSimplestOK(r, J)
+     ELSE IF QSign(r) < 0 THEN QSign(J.lo) < 0 /\ PosSimplestOK(QNeg(r), NegIval(J))
      ELSE FALSE
 \* simplest_in(l, u)
 SimplestInOK(l, u, r) ==
@@ -127,8 +127,8 @@ FromIeeeOK(fl, some, r) ==
   IF ~IsFiniteFl(fl) THEN some = 0
   ELSE IF some # 1 THEN FALSE
   ELSE IF IsZeroFl(fl) THEN QIsZero(r) /\ Canon(r)
-  ELSE LET I == FloatIval(fl) IN
-       SimplestInIvalOK(r, IF fl.sg = 1 THEN NegIval(I) ELSE I)
+  ELSE LET J == FloatIval(fl) IN
+       SimplestInIvalOK(r, IF fl.sg = 1 THEN NegIval(J) ELSE J)
 
 \* ---------------------------------------------------------------- rounding interval of an FBig
 (* f = sig * B^exp with precision prec >= 1 (at most prec digits), rounding mode `mode`: the set of
@@ -169,6 +169,6 @@ FromFbigOK(B, mode, f, some, r) ==
   ELSE IF some # 1 THEN FALSE
   ELSE IF f.sig.m = <<>> THEN QIsZero(r) /\ Canon(r)
   ELSE IF f.prec = 0 THEN QEq(r, FbigValue(B, f.sig, f.exp)) /\ Canon(r)
-  ELSE LET I == FbigIval(B, mode, f.prec, f.sig, f.exp) IN
-       SimplestInIvalOK(r, IF f.sig.s = 1 THEN NegIval(I) ELSE I)
+  ELSE LET J == FbigIval(B, mode, f.prec, f.sig, f.exp) IN
+       SimplestInIvalOK(r, IF f.sig.s = 1 THEN NegIval(J) ELSE J)
 =============================================================================
